@@ -15,6 +15,7 @@ import (
 	"syscall"
 	"time"
 
+	"verif/harness/refpar1"
 	"verif/harness/sandbox"
 	"verif/harness/tracelog"
 )
@@ -192,6 +193,20 @@ func runC20(args []string) error {
 		}
 		if w.a1, err = buildArch1(filepath.Join(c.dir, fmt.Sprintf("c20p1-%d", wi)), w.names, w.prot, 2, w.base); err != nil {
 			return err
+		}
+		if wi == 1 {
+			// the second world's PAR1 index carries a comment of ODD byte length (comments are free-form bytes in PAR 1.0;
+			// gopar's own Create writes none): same entries, same set hash, written by the independent reference writer
+			var specs []refpar1.FileSpec
+			for _, n := range w.names {
+				specs = append(specs, refpar1.FileSpec{Name: n, Data: w.prot[n], Saved: true})
+			}
+			idx := refpar1.BuildVolume(specs, 0, []byte("odd"))
+			if a, b := refpar1.Tokenize(idx), refpar1.Tokenize(w.a1.IndexB); a.OK && b.OK && a.Header.SetHash == b.Header.SetHash && len(a.Entries) == len(b.Entries) {
+				w.a1.IndexB = idx
+			} else {
+				return fmt.Errorf("c20: the reference-written PAR1 index does not match gopar's (set hash / entries)")
+			}
 		}
 		w.subProt = map[string][]byte{"one.dat": w.prot["one.dat"], "two.dat": w.prot["two.dat"]}
 		for k := 0; ; k++ {
